@@ -1967,6 +1967,14 @@ func (c *Ctx) checkScalarCodecPairs() {
 		lower := len(callsNamed(enc, "strings", "ToLower")) > 0
 		upperE := len(callsNamed(enc, "strings", "ToUpper")) > 0
 		decodes := callsNamed(dec, "encoding/base32", "DecodeString")
+		// or in a decoding helper of ParseUid32 (`data, ok := decodeBase32(s)`)
+		core.AllInstrs(dec, func(in ssa.Instruction) {
+			if call, ok := in.(*ssa.Call); ok {
+				if g := call.Call.StaticCallee(); g != nil && g != dec && core.InModule(g) && len(g.Blocks) > 0 {
+					decodes = append(decodes, callsNamed(g, "encoding/base32", "DecodeString")...)
+				}
+			}
+		})
 		okPair := true
 		why := ""
 		if lower && !upperE {
@@ -2792,14 +2800,44 @@ func (c *Ctx) checkOnlineCountedWithAttach() {
 			call, ok := in.(*ssa.Call)
 			return ok && core.CalleeOf(&call.Call) == addSession
 		}
+		// the increments: `pud.online++` here, or a call of a helper that adds to the counter (with a
+		// delta that is not a negative constant)
+		var incs []ssa.Instruction
 		for _, st := range core.StoresToField(fn, onlineF) {
-			b, ok := core.Strip(st.Val).(*ssa.BinOp)
-			if !ok || b.Op != token.ADD {
-				continue
+			if b, ok := core.Strip(st.Val).(*ssa.BinOp); ok && b.Op == token.ADD {
+				incs = append(incs, st)
 			}
+		}
+		core.AllInstrs(fn, func(in ssa.Instruction) {
+			call, ok := in.(*ssa.Call)
+			if !ok {
+				return
+			}
+			g := call.Call.StaticCallee()
+			if g == nil || g == fn || !core.InModule(g) || len(g.Blocks) == 0 {
+				return
+			}
+			adds := false
+			for _, st := range core.StoresToField(g, onlineF) {
+				if b, ok := core.Strip(st.Val).(*ssa.BinOp); ok && b.Op == token.ADD {
+					adds = true
+				}
+			}
+			if !adds {
+				return
+			}
+			for _, a := range call.Call.Args {
+				if k, ok := a.(*ssa.Const); ok && k.Value != nil && k.Value.Kind() == constant.Int && constant.Sign(k.Value) < 0 {
+					return
+				}
+			}
+			incs = append(incs, in)
+		})
+		for _, st := range incs {
+			st := st
 			n++
 			r.Func(fk(fn))
-			found, _ := core.PathAvoiding(fn, nil, func(in ssa.Instruction) bool { return in == ssa.Instruction(st) }, isAttach, nil)
+			found, _ := core.PathAvoiding(fn, nil, func(in ssa.Instruction) bool { return in == st }, isAttach, nil)
 			construct := fk(fn) + ": online++ only after the session was attached"
 			if k := countSame(r, rule, construct); k > 0 {
 				construct = fmt.Sprintf("%s #%d", construct, k+1)
@@ -2860,4 +2898,340 @@ func (c *Ctx) checkP2PNameExactLength() {
 			"the two ids are read from text whose length is not tested for equality with the length of a p2p name: a longer string decodes to the same pair as the canonical name")
 	})
 	r.Check(n >= 2, rule, "reads of the two ids in ParseP2P", "-", fmt.Sprintf("%d", n), "fewer than two: anchor lost")
+}
+
+// checkReportedErrorNotOverwritten (C13): a function that merges the errors of several validation
+// steps into one variable and reports it (`if a { err = f() }; if b { err = g() }; return err`)
+// must not lose the error of an earlier step when a later step runs: a malformed field would be
+// answered as if it were well formed. Structurally, for every error result of a call in package
+// server that is never tested directly (it only flows into merges): no path from the call to an
+// exit of the function lets the value die unused - at every merge the value either travels on, or
+// has been tested, returned, stored or passed before.
+func (c *Ctx) checkReportedErrorNotOverwritten() {
+	r := c.R
+	const rule = "C13.4d-validation-error-not-overwritten"
+	errT := types.Universe.Lookup("error").Type()
+	n := 0
+	for _, fn := range c.P.ModFuncs {
+		if !core.InPkg(fn, "server") && os.Getenv("VERIF_ALLPKG") == "" {
+			continue
+		}
+		for _, b := range fn.Blocks {
+			for i, in := range b.Instrs {
+				var e ssa.Value
+				switch x := in.(type) {
+				case *ssa.Call:
+					if types.Identical(x.Type(), errT) {
+						e = x
+					}
+				case *ssa.Extract:
+					if _, isCall := x.Tuple.(*ssa.Call); isCall && types.Identical(x.Type(), errT) {
+						e = x
+					}
+				}
+				if e == nil || e.Referrers() == nil {
+					continue
+				}
+				nphi, other := 0, 0
+				for _, ref := range *e.Referrers() {
+					switch ref.(type) {
+					case *ssa.Phi:
+						nphi++
+					case *ssa.DebugRef:
+					default:
+						other++
+					}
+				}
+				if nphi == 0 || other > 0 {
+					continue
+				}
+				n++
+				r.Func(fk(fn))
+				lost := errorDiesUnused(b, i+1, e)
+				callee := "call"
+				if cv, ok := e.(*ssa.Call); ok {
+					if f := core.CalleeOf(&cv.Call); f != nil {
+						callee = f.Name()
+					}
+				} else if ex, ok := e.(*ssa.Extract); ok {
+					if f := core.CalleeOf(&ex.Tuple.(*ssa.Call).Call); f != nil {
+						callee = f.Name()
+					}
+				}
+				detail := ""
+				if lost != nil {
+					detail = "the error of this step is merged into a variable that a later step overwrites" + posOf(c, lost) + " before anything looked at it: the failure of the earlier step is reported as success"
+				}
+				r.Check(lost == nil, rule, fmt.Sprintf("%s: merged error of %s reaches a test or the caller on every path", fk(fn), callee), c.pos(in), "", detail)
+			}
+		}
+	}
+	r.Info(rule, "merged error results examined", "-", fmt.Sprintf("%d", n))
+}
+
+// errorDiesUnused: starting behind instruction idx of block b with the value cur, is there a path
+// to a return on which cur (or the merge it flowed into) is never used? Returns the instruction
+// at which the value is dead (the return, or the first instruction of the block where a merge
+// replaces it), nil when every path uses it.
+func errorDiesUnused(b *ssa.BasicBlock, idx int, cur ssa.Value) ssa.Instruction {
+	type st struct {
+		b   *ssa.BasicBlock
+		cur ssa.Value
+	}
+	seen := map[st]bool{}
+	var walk func(b *ssa.BasicBlock, idx int, cur ssa.Value) ssa.Instruction
+	uses := func(in ssa.Instruction, v ssa.Value) bool {
+		for _, op := range in.Operands(nil) {
+			if op != nil && *op == v {
+				return true
+			}
+		}
+		return false
+	}
+	walk = func(b *ssa.BasicBlock, idx int, cur ssa.Value) ssa.Instruction {
+		for _, in := range b.Instrs[idx:] {
+			if _, isPhi := in.(*ssa.Phi); isPhi {
+				continue
+			}
+			if _, isDbg := in.(*ssa.DebugRef); isDbg {
+				continue
+			}
+			if uses(in, cur) {
+				return nil
+			}
+			switch in.(type) {
+			case *ssa.Return:
+				return in
+			case *ssa.Panic:
+				return nil
+			}
+		}
+		for _, s := range b.Succs {
+			k := -1
+			for j, p := range s.Preds {
+				if p == b {
+					k = j
+				}
+			}
+			next := cur
+			dead, translated := false, false
+			var by ssa.Instruction
+			for _, in := range s.Instrs {
+				phi, ok := in.(*ssa.Phi)
+				if !ok {
+					break
+				}
+				if k < 0 || k >= len(phi.Edges) {
+					continue
+				}
+				if phi.Edges[k] == cur {
+					next = phi
+					dead, translated = false, false
+					break
+				}
+				// the merge of the same variable takes another value on this edge: the variable was
+				// reassigned on the way here
+				carries := false
+				for _, e := range phi.Edges {
+					if e == cur {
+						carries = true
+					}
+				}
+				if carries {
+					if known, isNil := errorsNewNonNil(phi.Edges[k]); known && !isNil {
+						translated = true // replaced by an error made on the spot: still a failure
+					} else if g, isG := loadedGlobal(phi.Edges[k]); isG && g != nil {
+						translated = true // a package-level sentinel error
+					} else {
+						dead = true
+						by, _ = phi.Edges[k].(ssa.Instruction)
+					}
+				}
+			}
+			if translated {
+				continue
+			}
+			if dead {
+				if by != nil {
+					return by
+				}
+				return s.Instrs[0]
+			}
+			key := st{s, next}
+			if seen[key] {
+				continue
+			}
+			seen[key] = true
+			if w := walk(s, 0, next); w != nil {
+				return w
+			}
+		}
+		return nil
+	}
+	return walk(b, idx, cur)
+}
+
+// loadedGlobal: v is a load of a package-level variable.
+func loadedGlobal(v ssa.Value) (*ssa.Global, bool) {
+	if u, ok := v.(*ssa.UnOp); ok && u.Op == token.MUL {
+		if g, ok := u.X.(*ssa.Global); ok {
+			return g, true
+		}
+	}
+	return nil, false
+}
+
+// checkReaderRowUnderChannelName (C08): a channel reader's subscription row is stored under the
+// channel spelling of the topic name (chnXXX), a subscriber's under grpXXX. In a Topic method that
+// knows whether the request came in through the channel name (a value derived from
+// verifyChannelAccess), a write of the acting user's own subscription row (Subs.Update /
+// Subs.Delete keyed by the user of the request) that addresses the row by the bare Topic.name is
+// reachable only when the request did not come in through the channel name (or the user's cached
+// record is not a channel reader's).
+func (c *Ctx) checkReaderRowUnderChannelName() {
+	r := c.R
+	const rule = "C08.1f-reader-row-under-channel-name"
+	verify := c.method("server", "Topic", "verifyChannelAccess")
+	parseUid := c.fn("server/store/types", "ParseUserId")
+	asUserF := c.field("server", "ClientComMessage", "AsUser")
+	nameF := c.E().topicField("name")
+	pudChan := c.E().pudField("isChan")
+	if verify == nil || parseUid == nil || asUserF == nil || nameF == nil {
+		return
+	}
+	var isFlag func(fn *ssa.Function, v ssa.Value, d int) bool
+	isFlag = func(fn *ssa.Function, v ssa.Value, d int) bool {
+		v = core.Strip(v)
+		if d > 4 {
+			return false
+		}
+		switch x := v.(type) {
+		case *ssa.Extract:
+			call, ok := x.Tuple.(*ssa.Call)
+			return ok && x.Index == 0 && core.CalleeOf(&call.Call) == verify
+		case *ssa.Phi:
+			n := 0
+			for _, e := range x.Edges {
+				if _, isK := core.Strip(e).(*ssa.Const); isK {
+					continue
+				}
+				if !isFlag(fn, e, d+1) {
+					return false
+				}
+				n++
+			}
+			return n > 0
+		case *ssa.Parameter:
+			return c.paramAtCallers(fn, x, func(caller *ssa.Function, arg ssa.Value) bool { return isFlag(caller, arg, d+1) })
+		}
+		return false
+	}
+	var isActing func(fn *ssa.Function, v ssa.Value, d int) bool
+	isActing = func(fn *ssa.Function, v ssa.Value, d int) bool {
+		v = core.Strip(v)
+		if d > 4 {
+			return false
+		}
+		switch x := v.(type) {
+		case *ssa.Call:
+			return core.CalleeOf(&x.Call) == parseUid && len(x.Call.Args) == 1 && core.IsFieldLoad(asUserF)(x.Call.Args[0])
+		case *ssa.Phi:
+			// `var asUid types.Uid; if msg.init { asUid = types.ParseUserId(msg.AsUser) }`
+			n := 0
+			for _, e := range x.Edges {
+				if _, isK := core.Strip(e).(*ssa.Const); isK {
+					continue
+				}
+				if !isActing(fn, e, d+1) {
+					return false
+				}
+				n++
+			}
+			return n > 0
+		case *ssa.Parameter:
+			return c.paramAtCallers(fn, x, func(caller *ssa.Function, arg ssa.Value) bool { return isActing(caller, arg, d+1) })
+		}
+		return false
+	}
+	n := 0
+	for _, fn := range c.P.ModFuncs {
+		if !core.InPkg(fn, "server") || fn.Parent() != nil || !isPtrToNamedRecv(fn, "Topic") {
+			continue
+		}
+		for _, sink := range c.storeWriteSinks(fn) {
+			call, ok := sink.(*ssa.Call)
+			if !ok {
+				continue
+			}
+			f, _ := c.isStoreCall(sink)
+			recv, _ := call.Call.Value.Type().(*types.Named)
+			if f == nil || recv == nil || !strings.HasPrefix(recv.Obj().Name(), "Subs") || (f.Name() != "Update" && f.Name() != "Delete") {
+				continue
+			}
+			args := call.Call.Args
+			if len(args) < 2 || !core.IsFieldLoad(nameF)(args[0]) || !isActing(fn, args[1], 0) {
+				continue
+			}
+			// does this function know how the request was addressed?
+			flag := func(v ssa.Value) bool { return isFlag(fn, v, 0) }
+			knows := false
+			for _, p := range fn.Params {
+				if flag(p) {
+					knows = true
+				}
+			}
+			core.AllInstrs(fn, func(in ssa.Instruction) {
+				if v, ok := in.(ssa.Value); ok && !knows {
+					if _, isEx := v.(*ssa.Extract); isEx && flag(v) {
+						knows = true
+					}
+				}
+			})
+			if !knows {
+				continue
+			}
+			n++
+			r.Func(fk(fn))
+			saved := core.NoLift
+			core.NoLift = true
+			okG, cnt := core.GuardedBy(fn, call, core.BoolGuard("!asChan", flag, false))
+			if !(okG && cnt[0] > 0) && pudChan != nil {
+				// or: the cached record of the user is not a channel reader's
+				okG, cnt = core.GuardedBy(fn, call, core.BoolGuard("!pud.isChan", core.IsFieldLoad(pudChan), false))
+			}
+			core.NoLift = saved
+			construct := fmt.Sprintf("%s: Subs.%s of the acting user's row under Topic.name only for a request not addressed to the channel", fk(fn), f.Name())
+			if k := countSame(r, rule, construct); k > 0 {
+				construct = fmt.Sprintf("%s #%d", construct, k+1)
+			}
+			r.Check(okG && cnt[0] > 0, rule, construct, c.pos(call), "",
+				"the acting user's subscription row is addressed by the group spelling of the topic name although the request may have come in through the channel name: a channel reader's row lives under chnXXX, the write is acknowledged and lands nowhere (or on the wrong row)")
+		}
+	}
+	r.Check(n >= 1, rule, "writes of the acting user's row under Topic.name in channel-aware handlers", "-", fmt.Sprintf("%d", n), "none: anchor lost")
+}
+
+// paramAtCallers: pred holds for the argument bound to parameter p at every call site of fn (and
+// there is at least one).
+func (c *Ctx) paramAtCallers(fn *ssa.Function, p *ssa.Parameter, pred func(caller *ssa.Function, arg ssa.Value) bool) bool {
+	idx := -1
+	for i, q := range fn.Params {
+		if q == p {
+			idx = i
+		}
+	}
+	callers := c.callersOf(fn)
+	if idx < 0 || len(callers) == 0 {
+		return false
+	}
+	for _, cs := range callers {
+		args := cs.Site.Common().Args
+		if cs.Site.Common().IsInvoke() || idx >= len(args) {
+			return false
+		}
+		if !pred(cs.Caller, args[idx]) {
+			return false
+		}
+	}
+	return true
 }
